@@ -420,6 +420,8 @@ int scan_from_with(var input, int pos, const char* fmt, var args) {
         int err = format_from(input, pos, fmt_buf, &tmp, &off);
         if (err < 1) { throw(FormatError, "Unable to input Int!"); }
         pos += off;
+        /* without a length modifier an int was stored: give it its sign back */
+        if (strchr("di", *fmt) and not strpbrk(fmt_buf, "hljztqL")) { tmp = (int)tmp; }
         assign(a, $I(tmp));
       }
       
